@@ -160,16 +160,34 @@ theorem runOp_join (w : World) (c : TCtl) (b : Nat) :
         pure (w1.complete .unit)
       | _ => pure (w.complete .unit)) := rfl
 
-/-- the epilogue of a spawned thread `t ≠ 0` whose `JoinHandle` notify is `n` -/
+/-- the epilogue of a spawned thread `t ≠ 0` whose `JoinHandle` notify is `n`, before the common
+tail (`fin < 10`): the branch point of `notify`, then its effect; the thread then enters the tail
+`finishThread` (`fin := 10`: `drop_locals`, the destructors, `thread_done`) -/
 theorem runEpilogue_spawned (w : World) (c : TCtl) (b n : Nat) (ht : w.tid ≠ 0)
-    (hs : w.spawned.find? (·.2.1 == w.tid) = some (b, w.tid, n)) :
+    (hs : w.spawned.find? (·.2.1 == w.tid) = some (b, w.tid, n)) (hlt : c.fin < 10) :
     w.runEpilogue c =
       if c.fin == 0 then (w.modCtl w.tid fun c => { c with fin := 1 }).branch n .opaque
       else (do
         let w1 ← w.notifyEffect n
-        (w1.modCtl w.tid fun c => { c with fin := 2 }).threadDone) := by
+        pure (w1.modCtl w.tid fun c => { c with fin := 10 })) := by
   unfold World.runEpilogue
-  simp [ht, hs, bind, Except.bind]
+  have : ¬ c.fin ≥ 10 := by omega
+  simp [ht, hs, this, bind, Except.bind]
+
+/-- the epilogue of the main thread before the common tail: `lazy_statics.drop()` -/
+theorem runEpilogue_main (w : World) (c : TCtl) (ht : w.tid = 0) (hlt : c.fin < 10) :
+    w.runEpilogue c =
+      .ok (({ w with exec := { w.exec with lazyStatics := none } } : World).modCtl w.tid
+        fun c => { c with fin := 10 }) := by
+  unfold World.runEpilogue
+  have : ¬ c.fin ≥ 10 := by omega
+  simp [ht, this, pure, Except.pure]
+
+/-- from `fin = 10` on every thread runs the common tail -/
+theorem runEpilogue_finish (w : World) (c : TCtl) (h : 10 ≤ c.fin) :
+    w.runEpilogue c = w.finishThread c := by
+  unfold World.runEpilogue
+  simp [h]
 
 end Sy
 end LoomVerif
